@@ -94,10 +94,13 @@ MUTATIONS += [
          new="self.__jac[idx * __step:(idx + 1) * __step, jdx * __step:(jdx + 1) * __step] -= timestep * self.tableau_intermediate[idx, 1 + jdx] * jac_block"),
     dict(name="revert_D39_kick_mask_kept", props=["C13"], file=DS,
          old="        if staggered_mask is None:\n            # a mask given through set_kick_vars while a non-symplectic method was selected is kept for the next symplectic one\n            return self.staggered_mask\n", new=""),
-    dict(name="revert_D40_direction_fallback", props=["C09"], file=DS,
+    dict(name="revert_D40_direction_fallback", props=["C08"], file=DS,
          old="    if D.ar_numpy.any(undecided):", new="    if False:"),
     dict(name="revert_D41_slope_cache_invalidation", props=["C06"], file=DS,
          old="        if hasattr(self.integrator, \"final_time\"):\n            self.integrator.final_time = None\n\n        events, is_terminal", new="        events, is_terminal"),
     dict(name="revert_D36_near_target_return", props=["C03"], file=DS,
          old="        if not np.isinf(D.ar_numpy.to_numpy(tf)) and D.ar_numpy.abs(tf - self.__t[self.counter]) < D.ar_numpy.maximum(D.tol_epsilon(self.__y[self.counter].dtype), 0.5 * D.epsilon(self.__y[self.counter].dtype) * D.ar_numpy.abs(tf)):\n            return\n", new=""),
+    dict(name="revert_D42_hermite_gradient_cancellation", props=["C07"], file=I,
+         old="        return h01 * (self.p1 - self.p0) + h10 * self.trange * self.m0 + h11 * self.trange * self.m1",
+         new="        return (-h01) * self.p0 + h10 * self.trange * self.m0 + h01 * self.p1 + h11 * self.trange * self.m1"),
 ]
